@@ -45,6 +45,7 @@ class Collector:
         self.witness_obs = None
         self.notes = []
         self.reached = set()
+        self.records = []  # (inputs, payload) per path, for cross-path obligations (C07)
 
 
 def _tobool(c):
@@ -292,6 +293,12 @@ class SymCtx:
 
     def observe(self, label, value):
         self.observations.append((label, value))
+
+    def record(self, payload):
+        """remember a per-path measurement together with a witness of the path (cross-path checks in finalize)"""
+        if self.eng.check() == "sat":
+            sc = self._scenario(self.eng.model(), "record", None)
+            self.col.records.append((sc["inputs"], payload))
 
     # term helpers for reference definitions
     def ite(self, c, a, b):
